@@ -314,6 +314,7 @@ class Renderer:
         return (float(par.get('width', 0)), float(par.get('height', 0)))
 
     def stroke_test(self, local_subs, m, p):
+        if getattr(self, 'sharp_strokes', False): return sharp_stroke_test(local_subs, inv(m), p)
         w = float(p.get('stroke-width', 1)); miter = float(p.get('stroke-miterlimit', 4))
         minv = inv(m)
         dashed = p.get('stroke-dasharray', 'none') not in ('none', '')
@@ -387,12 +388,79 @@ def composite(layers, pt):
         acc = tuple(s + a * (1 - src[3]) for s, a in zip(src, acc))
     return acc
 
-def compare_documents(src_xml, out_xml, extent, n=17, tol=2e-3, eps_frac=0.004):
+def on_pieces(pts, closed, dashes, offset):
+    """the 'on' stretches of one subpath as (polyline, starts_at_subpath_start, ends_at_subpath_end); SVG semantics:
+    an odd-length list is repeated, the pattern restarts at every subpath, a negative offset shifts forward"""
+    seq = list(pts) + ([pts[0]] if closed else [])
+    if not dashes or sum(dashes) <= 0 or any(d < 0 for d in dashes): return [(seq, True, True)]
+    if len(dashes) % 2: dashes = dashes * 2
+    period = sum(dashes)
+    pos = offset % period             # position inside the pattern at arc length 0
+    k = 0
+    while pos >= dashes[k]: pos -= dashes[k]; k = (k + 1) % len(dashes)
+    remaining = dashes[k] - pos; on = (k % 2 == 0)
+    out, cur = [], ([seq[0]] if on else None)
+    first_piece_from_start = on
+    for a, b in zip(seq, seq[1:]):
+        L = math.hypot(b[0] - a[0], b[1] - a[1]); t = 0.0
+        while L - t > remaining + 1e-12:
+            t += remaining
+            q = (a[0] + (b[0] - a[0]) * t / L, a[1] + (b[1] - a[1]) * t / L)
+            if on: cur.append(q); out.append((cur, first_piece_from_start and len(out) == 0, False)); cur = None
+            else: cur = [q]
+            k = (k + 1) % len(dashes); remaining = dashes[k]; on = not on
+            if remaining == 0:
+                # zero-length interval: toggles without advancing
+                pass
+        remaining -= (L - t)
+        if on: cur.append(b)
+    if on and cur is not None and len(cur) > 1: out.append((cur, first_piece_from_start and len(out) == 0, True))
+    return out
+
+def sharp_stroke_test(local_subs, minv, p):
+    """three-valued membership in the ideal stroke region, evaluated in the shape's own user space:
+    True  - the foot of the perpendicular lies inside an 'on' segment (away from its ends) at distance < w/2 - margin;
+    False - farther from every 'on' stretch than the cap/join/miter bound + margin;
+    None  - anything else (caps, joins, dash ends, the stroker's resolution band)."""
+    w = float(p.get('stroke-width', 1)); miter = float(p.get('stroke-miterlimit', 4))
+    cap = p.get('stroke-linecap', 'butt'); join = p.get('stroke-linejoin', 'miter')
+    da = p.get('stroke-dasharray', 'none')
+    dashes = [float(v) for v in re.split(r'[\s,]+', da.strip()) if v] if da not in ('none', '') else []
+    off = float(p.get('stroke-dashoffset', 0) or 0)
+    pieces = []
+    for pts, closed in local_subs:
+        if len(pts) < 2: continue
+        pieces += [pc[0] for pc in on_pieces(pts, closed, dashes, off)]
+    margin = 0.3
+    reach = w / 2 * max(1.0, miter if join == 'miter' else 1.0, math.sqrt(2) if cap == 'square' else 1.0)
+    def f(pt):
+        if minv is None: return False
+        x, y = mapp(minv, pt)
+        best = 1e300; inside = False
+        for poly in pieces:
+            for (x1, y1), (x2, y2) in zip(poly, poly[1:]):
+                dx, dy = x2 - x1, y2 - y1
+                L2 = dx * dx + dy * dy
+                if L2 == 0:
+                    best = min(best, math.hypot(x - x1, y - y1)); continue
+                t = ((x - x1) * dx + (y - y1) * dy) / L2
+                tc = max(0.0, min(1.0, t))
+                d = math.hypot(x - x1 - tc * dx, y - y1 - tc * dy)
+                best = min(best, d)
+                L = math.sqrt(L2)
+                if margin / L < t < 1 - margin / L and d < w / 2 - margin: inside = True
+        if inside: return True
+        if best > reach + margin: return False
+        return None
+    return f
+
+def compare_documents(src_xml, out_xml, extent, n=17, tol=2e-3, eps_frac=0.004, sharp_strokes=False):
     """returns None when both documents composite to the same colour at every usable sample point,
     else (point, colour_src, colour_out).  extent = (x, y, w, h) region to sample."""
     x0, y0, w, h = extent
     eps = eps_frac * max(w, h)
-    A = Renderer(src_xml, eps).layers(); B = Renderer(out_xml, eps).layers()
+    RA = Renderer(src_xml, eps); RA.sharp_strokes = sharp_strokes
+    A = RA.layers(); B = Renderer(out_xml, eps).layers()
     used = 0
     for i in range(n):
         for j in range(n):
